@@ -320,9 +320,15 @@ static int walkpair(const json &plan) {
     std::unordered_map<std::string, std::vector<PairRep>> states;
     {
         PairRep r;
+        const int initN = plan.value("init_n", 0);
         for (auto &f : facs) {
             r.a.push_back(f());
             r.b.push_back(f());
+            if (initN) {
+                json rz = {{"op", "resize"}, {"k", initN}};
+                r.a.back()->apply(rz);
+                r.b.back()->apply(rz);
+            }
         }
         json key = json::array({r.a[0]->enc(), r.b[0]->enc()});
         states[key.dump()].push_back(std::move(r));
@@ -485,14 +491,26 @@ static int record(const json &plan) {
     const int bigEvery = plan.value("big_every", 0);
     // "dense" histories: a large graph (sizes given by the plan) filled with many edges first,
     // so that vertices of high degree, indices beyond 32 / 64 and large label maps occur
-    const std::vector<int> dense = plan.value("dense", std::vector<int>{});
+    // each size is used twice: once dense (about 3n insertions, half of them leaving one hub
+    // vertex) and once sparse (about n/2 insertions, many self-loops), both followed by mixed calls
+    std::vector<int> dense = plan.value("dense", std::vector<int>{});
+    {
+        std::vector<int> twice;
+        for (int d : dense) {
+            twice.push_back(d);
+            twice.push_back(-d);
+        }
+        dense.swap(twice);
+    }
     const int totalHistories = histories + (int)dense.size();
     for (int h = 0; h < totalHistories; ++h) {
         const bool isDense = h >= histories;
-        const int denseN = isDense ? dense[h - histories] : 0;
+        const bool isSparse = isDense && dense[h - histories] < 0;
+        const int denseN = isDense ? std::abs(dense[h - histories]) : 0;
+        const int fillSteps = isSparse ? denseN / 2 : denseN * 3;
         // every big_every-th history runs on a larger graph (up to twice the vertices)
         const int nmax = isDense ? denseN : (bigEvery && h % bigEvery == bigEvery - 1) ? nmaxBase * 2 : nmaxBase;
-        const int steps = isDense ? denseN * 4 + 60 : plan.value("steps", 100);
+        const int steps = isDense ? fillSteps + denseN + 60 : plan.value("steps", 100);
         std::unique_ptr<IObj> o = facs[famIdx]();
         os << json({{"c", {{"op", "reset"}}}}).dump() << "\n";
         json hist = json::array();
@@ -501,7 +519,7 @@ static int record(const json &plan) {
             json c;
             // first call of a history: give the graph some vertices
             std::string op = (s == 0) ? "resize" : ops[pick(ops.size())];
-            if (isDense && s > 0 && s < denseN * 3 && pick(8) != 0) {
+            if (isDense && s > 0 && s < fillSteps && pick(8) != 0) {
                 // filling phase: mostly insertions (a hub first, then everywhere)
                 op = (kind == "multi" && pick(2)) ? "addMultiedge" : "addEdge";
                 if (std::find(ops.begin(), ops.end(), op) == ops.end())
@@ -530,8 +548,10 @@ static int record(const json &plan) {
             } else {
                 c["i"] = vert();
                 c["j"] = pick(5) == 0 ? c["i"].get<int>() : vert(); // favour self-loops a little
-                if (isDense && s < denseN * 3 && n > 2 && pick(3) == 0)
-                    c[pick(2) ? "i" : "j"] = n - 2; // a hub among the highest indices
+                if (isDense && !isSparse && s < fillSteps && n > 2 && pick(2) == 0)
+                    c[pick(4) ? "i" : "j"] = n - 2; // a hub among the highest indices, mostly as the source
+                if (isSparse && s < fillSteps && pick(3) == 0)
+                    c["j"] = c["i"]; // many self-loops on a sparse graph
                 bool f = forces[pick(forces.size())];
                 if (op == "addEdge") {
                     if (kind == "labeled" || kind == "nolabel")
